@@ -30,14 +30,17 @@ impl EventLog {
         #[cfg(rip_verif)]
         rip_kernel::verif::lock_point("log.writer", &|| self.writer.try_lock().is_ok());
         let mut writer = self.writer.lock().expect("event log mutex");
-        let line = serde_json::to_string(event)
+        let mut line = serde_json::to_string(event)
             .map_err(|err| io::Error::new(io::ErrorKind::InvalidData, err))?;
+        // One buffer, one write: a frame larger than the writer's buffer bypasses it, and a
+        // separate newline write would leave a window in which a crash tears the line (the next
+        // frame is then fused onto it and the log never parses again).
+        line.push('\n');
         #[cfg(rip_verif)]
         rip_kernel::verif::point("log.write_body");
-        writer.write_all(line.as_bytes())?;
         #[cfg(rip_verif)]
         rip_kernel::verif::point("log.write_newline");
-        writer.write_all(b"\n")?;
+        writer.write_all(line.as_bytes())?;
         #[cfg(rip_verif)]
         rip_kernel::verif::point("log.flush");
         writer.flush()?;
